@@ -38,3 +38,13 @@ Proof.
   split; [vm_compute; reflexivity|]. split; [vm_compute; reflexivity|]. exact stuck.
 Qed.
 Print Assumptions c16_initial_state_record_refuted.
+
+From PS Require Props.C16.
+Theorem c16_full_refuted : ~ PS.Props.C16.C16_full.
+Proof.
+  intros H. specialize (H (fun _ => None) table_swap_out_sender mach).
+  assert (S : settles tl_consts_gen (fun _ => None) table_swap_out_sender terminal_states c16_rounds mach).
+  { eapply H; [left; reflexivity|vm_compute; reflexivity|vm_compute; reflexivity]. }
+  exact (stuck _ S).
+Qed.
+Print Assumptions c16_full_refuted.
